@@ -2,6 +2,9 @@ package verifh
 
 import (
 	"encoding/binary"
+	"io"
+	"net"
+	"syscall"
 
 	"github.com/spf13/afero"
 
@@ -114,7 +117,7 @@ func c04Alphabet() []Req {
 func TestC04(t *testing.T) {
 	r := NewReporter(t)
 	defer r.Done()
-	r.Rule("(a) all request sequences of length <= depth over a hostile alphabet (unaligned / huge offsets and limits, sector reads with huge start/count, listing and mutation on virtual paths and non-directories, unknown opcodes) and all sequences of length 3-4 over 12 state-carrying requests, against a world with generated images, redump + key, 3k3y, CD image; (b) on-disk content: every PARAM.SFO header/index field set to each boundary value, every truncation, TITLE_ID lengths 0..40; region tables with hostile counts and borders; key files of every length 0..40 and non-hex; 3k3y area x file lengths; (c) name families, directories with unresolvable links (loop, mutual, through a file, dangling), a cycle through the parent and names that are not valid UTF-8; each followed by a liveness probe; (d) the same artefacts through make-iso / decrypt; oracle: worker process alive, fresh connection served, no hang, tools exit without a Go panic; distinct by case")
+	r.Rule("(a) all request sequences of length <= depth over a hostile alphabet (unaligned / huge offsets and limits, sector reads with huge start/count, listing and mutation on virtual paths and non-directories, unknown opcodes) and all sequences of length 3-4 over 12 state-carrying requests, against a world with generated images, redump + key, 3k3y, CD image; (b) on-disk content: every PARAM.SFO header/index field set to each boundary value, every truncation, TITLE_ID lengths 0..40; region tables with hostile counts and borders; key files of every length 0..40 and non-hex; 3k3y area x file lengths; (c) name families, directories with unresolvable links (loop, mutual, through a file, dangling), a cycle through the parent and names that are not valid UTF-8; each followed by a liveness probe; (e) Accept failing with EMFILE/ENFILE, bounded descriptor use for a 300-file image, the real binary with 64 descriptors under 100 simultaneous clients and under a client walking through a 200-file image; (d) the same artefacts through make-iso / decrypt; oracle: worker process alive, fresh connection served, no hang, tools exit without a Go panic; distinct by case")
 	w := c04World(t, r)
 	defer w.Cleanup()
 	alpha := c04Alphabet()
@@ -485,6 +488,181 @@ func TestC04(t *testing.T) {
 		runCase("C04:odd-dir", "directory with "+kind+" entries", false, reqs)
 		binSession("directory with "+kind+" entries", reqs)
 		os.RemoveAll(nm)
+	}
+	// (e) "any number of clients": the descriptor table fills up. In-process: Accept reports EMFILE / ENFILE (descriptor table of the process / of the system full;
+	// aborted connections never reach the caller, the runtime retries them itself) 1, 3 or 40 times in a row - the accept loop must go on and serve the next client
+	for _, errno := range []syscall.Errno{syscall.EMFILE, syscall.ENFILE} {
+		for _, k := range []int{1, 3, 40} {
+			idx++
+			if !r.Mine(idx) {
+				continue
+			}
+			var why string
+			synctest.Test(t, func(t *testing.T) {
+				s := startSrv(SrvOpts{Root: w.Root})
+				a := s.Dial(nil)
+				if resp, closed := s.Exchange(a, mkReq(opStatFile, "/").Encode()); len(resp) != szStat || closed {
+					why = "first client not served"
+				}
+				s.ln.FailAccepts(k, tempAcceptErr(errno))
+				synctest.Wait()
+				time.Sleep(5 * time.Minute) // virtual: a retry pause of up to a second per failure is what net/http does, too
+				synctest.Wait()
+				b := s.Dial(nil)
+				resp, closed := s.Exchange(b, mkReq(opStatFile, "/").Encode())
+				if why == "" && (len(resp) != szStat || closed) {
+					select {
+					case <-s.done:
+						why = sprintf("after Accept failed %d time(s) with %v the accept loop ended: the server no longer accepts", k, errno)
+					default:
+						why = sprintf("after Accept failed %d time(s) with %v the next client is not served (%d bytes, closed=%v)", k, errno, len(resp), closed)
+					}
+				}
+				if resp, closed := s.Exchange(a, mkReq(opStatFile, "/").Encode()); why == "" && (len(resp) != szStat || closed) {
+					why = "the client connected before the accept failures is no longer served"
+				}
+				s.Shutdown()
+			})
+			key := sprintf("accept fails %d x %v", k, errno)
+			r.Transition(3)
+			r.Eval(1)
+			r.State(key)
+			r.Nontrivial(key)
+			if why != "" {
+				r.Violation("C04:accept-error-stops-server", why, map[string]any{"errno": errno.Error(), "times": k})
+			} else {
+				r.Outcome("accept-error-survived")
+			}
+		}
+	}
+	// descriptor use must not grow with the content of a directory: an image of 300 non-empty files in 200 directories built and read from
+	// start to end (and a 300-entry directory listed) keeps a bounded number of handles open at any moment
+	idx++
+	if r.Mine(idx) {
+		os.RemoveAll(filepath.Join(w.Root, "nm"))
+		for i := 0; i < 300; i++ {
+			w.File(sprintf("nm/g%d/sub/f%04d.bin", i%100, i), int64(1+i%4*900), byte(i))
+		}
+		leaf := newVFs(afero.NewOsFs(), "leaf")
+		leaf.record = false
+		var why string
+		synctest.Test(t, func(t *testing.T) {
+			s := startSrv(SrvOpts{Root: w.Root, LeafWrap: func(afero.Fs) afero.Fs { return leaf }})
+			c := s.Dial(nil)
+			resp, _ := s.Exchange(c, mkReq(opOpenFile, "/***DVD***/nm").Encode())
+			if len(resp) != szOpenFile || int64(be64(resp)) <= 0 {
+				why = "image of 300 files could not be opened: " + hexHead(resp)
+			} else {
+				size := be64(resp)
+				for off := uint64(0); off < size && why == ""; off += 65536 {
+					r2, closed := s.Exchange(c, rdcReq(off, uint32(min(65536, size-off))).Encode())
+					if closed || uint64(len(r2)) != min(65536, size-off) {
+						why = sprintf("critical read at %d of the image failed (%d bytes, closed=%v)", off, len(r2), closed)
+					}
+				}
+				s.Exchange(c, mkReq(opOpenDir, "/nm/g0/sub").Encode())
+				s.Exchange(c, noargReq(opReadDir).Encode())
+			}
+			s.Shutdown()
+		})
+		r.Transition(10)
+		r.Eval(1)
+		r.State("descriptor use of a 300-file image")
+		r.Nontrivial("descriptor use of a 300-file image")
+		r.Extra("peak_open_handles_300_file_image", leaf.Peak())
+		if why != "" {
+			r.Violation("C04:descriptors:read-failed", why, nil)
+		} else if leaf.Peak() > 16 {
+			r.Violation("C04:descriptors:grow-with-content", sprintf("reading the image of a directory with 300 files from start to end held up to %d files and directories open at the same time (they grow with the content of the tree): a tree larger than the descriptor limit exhausts the process's descriptors, new connections cannot be accepted and other connections' opens fail", leaf.Peak()), map[string]any{"peak_open_handles": leaf.Peak()})
+		} else {
+			r.Outcome("descriptor-use-bounded")
+		}
+		os.RemoveAll(filepath.Join(w.Root, "nm"))
+	}
+	// the real process with 64 descriptors: 100 clients connect at once (more than it has descriptors), then leave -
+	// the process must survive and serve a new client; and a client reading the image of 200 files sector by sector
+	// while another one connects after every step
+	if binPath() != "" && r.Shard == 0 {
+		logDir := binLogDir("C04fd")
+		must(os.MkdirAll(logDir, 0o755))
+		for i := 0; i < 200; i++ {
+			w.File(sprintf("nm/f%04d.bin", i), 100, byte(i))
+		}
+		b, err := startBinLimited([]string{"server", "--listen-addr=127.0.0.1:0", "--root=" + w.Root, "--read-timeout=2m"}, cleanEnv(logDir), w.Dir, filepath.Join(logDir, "server.log"), 30*time.Second, 64)
+		if err != nil {
+			r.HarnessError("cannot start the real binary with a descriptor limit: " + err.Error())
+		} else {
+			var conns []net.Conn
+			for i := 0; i < 100; i++ {
+				c, err := net.DialTimeout("tcp", b.Addr, 2*time.Second)
+				if err != nil {
+					break
+				}
+				conns = append(conns, c)
+			}
+			time.Sleep(300 * time.Millisecond)
+			for _, c := range conns {
+				c.Close()
+			}
+			time.Sleep(300 * time.Millisecond)
+			alive := func(what string) bool {
+				for try := 0; try < 50; try++ {
+					if p, err := dialFrom(b.Addr, "", 2*time.Second); err == nil {
+						ok, ex, _ := p.statProbe("/", 5*time.Second)
+						p.Close()
+						if ok && ex {
+							return true
+						}
+					}
+					if b.Exited() {
+						break
+					}
+					time.Sleep(100 * time.Millisecond)
+				}
+				r.Violation("C04:descriptors:real-binary-died", sprintf("real server started with 64 descriptors: %s it no longer serves (exited=%v): %s", what, b.Exited(), lastLines(b.Log(), 4)), nil)
+				return false
+			}
+			r.Trace(1)
+			r.State("real binary: more clients than descriptors")
+			if alive(sprintf("after %d clients connected at once and left,", len(conns))) {
+				r.Outcome("more-clients-than-descriptors-survived")
+				// one client walks through the image of 200 files while others come and go
+				if a, err := dialFrom(b.Addr, "", 5*time.Second); err == nil {
+					a.c.SetDeadline(time.Now().Add(60 * time.Second))
+					a.c.Write(mkReq(opOpenFile, "/***DVD***/nm").Encode())
+					hdr := make([]byte, szOpenFile)
+					io.ReadFull(a.c, hdr)
+					size := be64(hdr)
+					okAll := true
+					for off := uint64(0x10000); off < size && okAll; off += 2048 {
+						a.c.Write(rdReq(off, 2048).Encode())
+						buf := make([]byte, 4+2048)
+						if _, err := io.ReadFull(a.c, buf); err != nil {
+							break // the reading client itself may be refused or dropped; the others must not suffer
+						}
+						p, err := dialFrom(b.Addr, "", 2*time.Second)
+						if err != nil {
+							okAll = false
+							break
+						}
+						ok, ex, _ := p.statProbe("/", 5*time.Second)
+						p.Close()
+						okAll = ok && ex
+					}
+					a.Close()
+					r.Trace(1)
+					r.State("real binary: image of 200 files with 64 descriptors")
+					if !okAll || b.Exited() {
+						r.Violation("C04:descriptors:image-reader-starves-others", sprintf("real server started with 64 descriptors: while one client reads the image of a 200-file directory sector by sector, other clients are no longer served (exited=%v): %s", b.Exited(), lastLines(b.Log(), 4)), nil)
+					} else {
+						r.Outcome("image-reader-does-not-starve-others")
+					}
+				}
+			}
+			b.Stop()
+		}
+		os.RemoveAll(filepath.Join(w.Root, "nm"))
+		os.RemoveAll(logDir)
 	}
 	// (d) the same artefacts through the offline tools
 	if binPath() != "" {
